@@ -3,6 +3,15 @@ package main
 // C18 facts: what the compaction model takes from the source as constants
 // (dkv/db.go New: number of levels, default level-0 trigger, size amplification limit;
 // dkv/sst/table.go: Age() is the sequence number of the first key, OrderOldToNew sorts ascending by Age).
+//
+// Every one of these is observed completely by an operation of the C18 correspondence on the real code
+// (`cfg`: the values dkv.New builds with default options; `ages`: Table.Age() of every real table against the model's
+// `age`; `agesort`: slices.SortedFunc(level.AllTables(), OrderOldToNew) against `sortByAge`), so an unrecognised source
+// shape is reported with ok=false (last good value kept, tools/gofacts/fallbacks.json names the correspondence) and
+// never by flipping a flag to 0. A flag is set to 0 only when the source is recognised and says the opposite
+// (Age returns another field, the comparison arguments are swapped).
+//
+// The recognisers do not depend on receiver, parameter or local variable names.
 
 import (
 	"go/ast"
@@ -11,20 +20,49 @@ import (
 
 func init() { extraFactFns = append(extraFactFns, c18Facts) }
 
+// paramNames lists the parameter names of a function in order.
+func paramNames(fn *ast.FuncDecl) []string {
+	var out []string
+	if fn.Type == nil || fn.Type.Params == nil {
+		return out
+	}
+	for _, p := range fn.Type.Params.List {
+		for _, n := range p.Names {
+			out = append(out, n.Name)
+		}
+	}
+	return out
+}
+
+func c18RecvName(fn *ast.FuncDecl) string {
+	if fn.Recv != nil && len(fn.Recv.List) == 1 && len(fn.Recv.List[0].Names) == 1 {
+		return fn.Recv.List[0].Names[0].Name
+	}
+	return ""
+}
+
+// lastSel returns the final selector of x.y.z ("z") and the printed prefix ("x.y").
+func lastSel(e ast.Expr) (prefix, sel string) {
+	if s, ok := e.(*ast.SelectorExpr); ok {
+		return selName(s.X), s.Sel.Name
+	}
+	return "", selName(e)
+}
+
 func c18Facts(fc *facts) {
 	db := parseFile("dkv/db.go")
 	nw := findFuncOr(db, "", "New")
 
-	// sstables: sst.NewEmptyLevelList(N)
+	// sstables: <pkg>.NewEmptyLevelList(N)
 	var levelCounts []uint64
 	// compactor literal: MaxSizeAmplificationPercent: N
 	var amps []uint64
-	// if options.L0TableNumCompactionTrigger == 0 { options.L0TableNumCompactionTrigger = N }
+	// if <x>.L0TableNumCompactionTrigger == 0 { <x>.L0TableNumCompactionTrigger = N }
 	var triggers []uint64
 	ast.Inspect(nw, func(x ast.Node) bool {
 		switch n := x.(type) {
 		case *ast.CallExpr:
-			if selName(n.Fun) == "sst.NewEmptyLevelList" && len(n.Args) == 1 {
+			if _, sel := lastSel(n.Fun); sel == "NewEmptyLevelList" && len(n.Args) == 1 {
 				if v, ok := litVal(n.Args[0]); ok {
 					levelCounts = append(levelCounts, v)
 				}
@@ -37,16 +75,28 @@ func c18Facts(fc *facts) {
 			}
 		case *ast.IfStmt:
 			c, ok := n.Cond.(*ast.BinaryExpr)
-			if !ok || c.Op != token.EQL || selName(c.X) != "options.L0TableNumCompactionTrigger" {
+			if !ok || c.Op != token.EQL {
 				return true
 			}
-			if z, ok := litVal(c.Y); !ok || z != 0 || len(n.Body.List) != 1 {
+			lhs, rhs := c.X, c.Y
+			if _, ok := litVal(lhs); ok { // 0 == x.Field
+				lhs, rhs = rhs, lhs
+			}
+			pfx, sel := lastSel(lhs)
+			if sel != "L0TableNumCompactionTrigger" {
 				return true
 			}
-			if as, ok := n.Body.List[0].(*ast.AssignStmt); ok && len(as.Lhs) == 1 && len(as.Rhs) == 1 &&
-				selName(as.Lhs[0]) == "options.L0TableNumCompactionTrigger" {
-				if v, ok := litVal(as.Rhs[0]); ok {
-					triggers = append(triggers, v)
+			if z, ok := litVal(rhs); !ok || z != 0 {
+				return true
+			}
+			for _, st := range n.Body.List {
+				if as, ok := st.(*ast.AssignStmt); ok && as.Tok == token.ASSIGN && len(as.Lhs) == 1 && len(as.Rhs) == 1 {
+					p2, s2 := lastSel(as.Lhs[0])
+					if p2 == pfx && s2 == sel {
+						if v, ok := litVal(as.Rhs[0]); ok {
+							triggers = append(triggers, v)
+						}
+					}
 				}
 			}
 		}
@@ -56,65 +106,98 @@ func c18Facts(fc *facts) {
 		if len(xs) == 1 {
 			fc.set(name, xs[0], true, what)
 		} else {
-			problem("dkv.New: expected exactly one %s, got %v", what, xs)
+			fc.set(name, 0, false, what)
 		}
 	}
-	one("dkvLevelCount", levelCounts, "sst.NewEmptyLevelList(<int>)")
-	one("dkvMaxSizeAmpPercent", amps, "MaxSizeAmplificationPercent: <int>")
-	one("dkvDefaultL0Trigger", triggers, "default for L0TableNumCompactionTrigger")
+	one("dkvLevelCount", levelCounts, "dkv.New: exactly one NewEmptyLevelList(<int constant>)")
+	one("dkvMaxSizeAmpPercent", amps, "dkv.New: exactly one `MaxSizeAmplificationPercent: <int constant>`")
+	one("dkvDefaultL0Trigger", triggers, "dkv.New: exactly one `if x.L0TableNumCompactionTrigger == 0 { x.L0TableNumCompactionTrigger = <int constant> }`")
 
-	// Age(): return t.startSeqNum ; OrderOldToNew: return cmp.Compare(a.Age(), b.Age())
+	// Age(): `return <recv>.startSeqNum` (1) / `return <recv>.<other field>` (0) / anything else: not recognised
 	tb := parseFile("dkv/sst/table.go")
-	ageOK := uint64(0)
-	if fn := findFuncOr(tb, "Table", "Age"); len(fn.Body.List) == 1 {
-		if r, ok := fn.Body.List[0].(*ast.ReturnStmt); ok && len(r.Results) == 1 && selName(r.Results[0]) == "t.startSeqNum" {
-			ageOK = 1
-		}
-	}
-	fc.set("c18AgeIsStartSeqNum", ageOK, true, "")
-	asc := uint64(0)
-	if fn := findFuncOr(tb, "", "OrderOldToNew"); len(fn.Body.List) == 1 && fn.Type.Params != nil {
-		var params []string
-		for _, p := range fn.Type.Params.List {
-			for _, n := range p.Names {
-				params = append(params, n.Name)
-			}
-		}
-		if r, ok := fn.Body.List[0].(*ast.ReturnStmt); ok && len(r.Results) == 1 && len(params) == 2 {
-			if c, ok := r.Results[0].(*ast.CallExpr); ok && selName(c.Fun) == "cmp.Compare" && len(c.Args) == 2 {
-				a0, ok0 := c.Args[0].(*ast.CallExpr)
-				a1, ok1 := c.Args[1].(*ast.CallExpr)
-				if ok0 && ok1 && selName(a0.Fun) == params[0]+".Age" && selName(a1.Fun) == params[1]+".Age" {
-					asc = 1
+	{
+		fn := findFuncOr(tb, "Table", "Age")
+		v, ok := uint64(0), false
+		if len(fn.Body.List) == 1 {
+			if r, isRet := fn.Body.List[0].(*ast.ReturnStmt); isRet && len(r.Results) == 1 {
+				if pfx, sel := lastSel(r.Results[0]); pfx != "" && pfx == c18RecvName(fn) {
+					ok = true
+					if sel == "startSeqNum" {
+						v = 1
+					}
 				}
 			}
 		}
+		fc.set("c18AgeIsStartSeqNum", v, ok, "Table.Age: a single `return <receiver>.<field>`")
 	}
-	fc.set("c18OrderOldToNewAscending", asc, true, "")
+	// OrderOldToNew(a, b): `return cmp.Compare(a.Age(), b.Age())` (1) / arguments swapped (0) / anything else: not recognised
+	{
+		fn := findFuncOr(tb, "", "OrderOldToNew")
+		v, ok := uint64(0), false
+		ps := paramNames(fn)
+		if len(fn.Body.List) == 1 && len(ps) == 2 {
+			if r, isRet := fn.Body.List[0].(*ast.ReturnStmt); isRet && len(r.Results) == 1 {
+				if c, isCall := r.Results[0].(*ast.CallExpr); isCall && selName(c.Fun) == "cmp.Compare" && len(c.Args) == 2 {
+					a0, ok0 := c.Args[0].(*ast.CallExpr)
+					a1, ok1 := c.Args[1].(*ast.CallExpr)
+					if ok0 && ok1 && len(a0.Args) == 0 && len(a1.Args) == 0 {
+						p0, s0 := lastSel(a0.Fun)
+						p1, s1 := lastSel(a1.Fun)
+						if s0 == "Age" && s1 == "Age" {
+							switch {
+							case p0 == ps[0] && p1 == ps[1]:
+								v, ok = 1, true
+							case p0 == ps[1] && p1 == ps[0]:
+								v, ok = 0, true
+							}
+						}
+					}
+				}
+			}
+		}
+		fc.set("c18OrderOldToNewAscending", v, ok, "OrderOldToNew(a, b): a single `return cmp.Compare(a.Age(), b.Age())`")
+	}
 
-	// writeEntry: the first entry written sets startSeqNum (`if t.size == 0 { ... t.startSeqNum = entry.SeqNum() }`)
+	// writeEntry(t, entry): `if <t>.size == 0 { ... <t>.startSeqNum = <entry>.SeqNum() ... }`
 	tw := parseFile("dkv/sst/table_writer.go")
-	first := uint64(0)
-	ast.Inspect(findFuncOr(tw, "", "writeEntry"), func(x ast.Node) bool {
-		ifs, ok := x.(*ast.IfStmt)
-		if !ok {
-			return true
-		}
-		c, ok := ifs.Cond.(*ast.BinaryExpr)
-		if !ok || c.Op != token.EQL || selName(c.X) != "t.size" {
-			return true
-		}
-		if z, ok := litVal(c.Y); !ok || z != 0 {
-			return true
-		}
-		for _, st := range ifs.Body.List {
-			if as, ok := st.(*ast.AssignStmt); ok && len(as.Lhs) == 1 && len(as.Rhs) == 1 && selName(as.Lhs[0]) == "t.startSeqNum" {
-				if call, ok := as.Rhs[0].(*ast.CallExpr); ok && selName(call.Fun) == "entry.SeqNum" {
-					first = 1
+	{
+		fn := findFuncOr(tw, "", "writeEntry")
+		ps := paramNames(fn)
+		found := false
+		if len(ps) == 2 {
+			ast.Inspect(fn, func(x ast.Node) bool {
+				ifs, isIf := x.(*ast.IfStmt)
+				if !isIf {
+					return true
 				}
-			}
+				c, isBin := ifs.Cond.(*ast.BinaryExpr)
+				if !isBin || c.Op != token.EQL {
+					return true
+				}
+				lhs, rhs := c.X, c.Y
+				if _, isLit := litVal(lhs); isLit {
+					lhs, rhs = rhs, lhs
+				}
+				if pfx, sel := lastSel(lhs); pfx != ps[0] || sel != "size" {
+					return true
+				}
+				if z, isLit := litVal(rhs); !isLit || z != 0 {
+					return true
+				}
+				for _, st := range ifs.Body.List {
+					if as, isAs := st.(*ast.AssignStmt); isAs && len(as.Lhs) == 1 && len(as.Rhs) == 1 {
+						if pfx, sel := lastSel(as.Lhs[0]); pfx == ps[0] && sel == "startSeqNum" {
+							if call, isCall := as.Rhs[0].(*ast.CallExpr); isCall && len(call.Args) == 0 {
+								if p2, s2 := lastSel(call.Fun); p2 == ps[1] && s2 == "SeqNum" {
+									found = true
+								}
+							}
+						}
+					}
+				}
+				return true
+			})
 		}
-		return true
-	})
-	fc.set("c18StartSeqNumIsFirstEntry", first, true, "")
+		fc.set("c18StartSeqNumIsFirstEntry", 1, found, "writeEntry(t, e): `if t.size == 0 { t.startSeqNum = e.SeqNum() }`")
+	}
 }
